@@ -156,6 +156,12 @@ func (t *Trace) After(op *Op) {
 	case KFWrite, KFWriteAt, KFWriteString:
 		t.WrittenPerHandle[op.Handle] += int64(op.N)
 		t.WrittenTotal += int64(op.N)
+	case KFTruncate:
+		// growing a file is writing it (whether the backend carried it out or the harness's cap refused it)
+		if op.Size > t.WrittenPerHandle[op.Handle] {
+			t.WrittenTotal += op.Size - t.WrittenPerHandle[op.Handle]
+			t.WrittenPerHandle[op.Handle] = op.Size
+		}
 	}
 	if !t.MutatingOnly || op.Mutates {
 		t.Ops = append(t.Ops, *op)
